@@ -1,5 +1,8 @@
 mod util;
 mod p_c13;
+mod p_c26;
+mod p_c14;
+mod p_c32;
 mod p_c21;
 mod p_c20;
 mod p_c10;
@@ -7,10 +10,13 @@ mod p_c05;
 mod p_c27;
 mod p_c04;
 mod p_c06;
+mod p_c34;
 use util::Opts;
 
 /// Finite tables read out of the compiled code (DESIGN.md 2.1).
 fn reflect_all(out: &std::path::Path) {
+    p_c26::reflect(out);
+    p_c14::reflect(out);
     p_c10::reflect(out);
     p_c05::reflect(out);
 }
@@ -32,6 +38,9 @@ fn main() {
     util::silence_panics();
     match a[1].as_str() {
         "c13" => p_c13::run(&o),
+        "c26" => p_c26::run(&o),
+        "c14" => p_c14::run(&o),
+        "c32" => p_c32::run(&o),
         "c21" => p_c21::run(&o),
         "c20" => p_c20::run(&o),
         "c10" => p_c10::run(&o),
@@ -39,6 +48,7 @@ fn main() {
         "c27" => p_c27::run(&o),
         "c04" => p_c04::run(&o),
         "c06" => p_c06::run(&o),
+        "c34" => p_c34::run(&o),
         // `vh reflect --out DIR`: every reflector writes its coq/Gen/*.v tables into DIR
         "reflect" => { std::fs::create_dir_all(&o.out).unwrap(); reflect_all(&o.out); }
         x => { eprintln!("unknown property driver {}", x); std::process::exit(2); }
